@@ -414,3 +414,48 @@ package smtp
 //@ func smtp.Client.SetDSNRcptNotifyOption
 //@   requires[C05:dsn] c != nil && argsafe(d)
 //@   ensures[C05:dsn] c.dsnrntype == d
+
+// ---------------------------------------------------------------------------
+// C14  SASL message construction against the RFC formulae (crypto and encodings uninterpreted)
+//
+//@ func smtp.plainAuth.Start (server) (proto, resp, err)
+//@   requires[C14:wf] a != nil && server != nil
+//@   ensures[C14:rfc4616] err == nil ==> proto == "PLAIN" && bytesare(resp, a.identity + "\x00" + a.username + "\x00" + a.password)
+//@ func smtp.loginAuth.Start (server) (proto, resp, err)
+//@   requires[C14:wf] a != nil && server != nil
+//@   ensures[C14:login] err == nil ==> proto == "LOGIN" && resp == nil && a.respStep == 0
+//@ func smtp.loginAuth.Next (fromServer, more) (resp, err)
+//@   requires[C14:wf] a != nil
+//@   ensures[C14:user-then-pass] more && old(a.respStep) == 0 ==> err == nil && bytesare(resp, a.username) && a.respStep == 1
+//@   ensures[C14:user-then-pass] more && old(a.respStep) == 1 ==> err == nil && bytesare(resp, a.password) && a.respStep == 2
+//@   ensures[C14:then-error] more && old(a.respStep) != 0 && old(a.respStep) != 1 ==> err != nil
+//@   ensures[C14:done] !more ==> resp == nil && err == nil
+//@ func smtp.xoauth2Auth.Start (server) (proto, resp, err)
+//@   requires[C14:wf] a != nil
+//@   ensures[C14:xoauth2] err == nil && proto == "XOAUTH2" && bytesare(resp, "user=" + a.username + "\x01auth=Bearer " + a.token + "\x01\x01")
+//@ func smtp.scramAuth.normalizeString (s) (o, err)
+//@   ensures[C14:precis] err == nil ==> o == precis(s)
+//@ func smtp.scramAuth.normalizeUsername () (o, err)
+//@   requires[C14:wf] a != nil
+//@   ensures[C14:escape-then-precis] err == nil ==> o == precis(scramesc(a.username))
+//@ func smtp.scramAuth.initialClientMessage () (msg, err)
+//@   requires[C14:wf] a != nil
+//@   ensures[C14:fresh-nonce] err == nil ==> world.randreads == old(world.randreads) + 1 && str(a.nonce) == b64(randbytes(world.randreads))
+//@   ensures[C14:client-first-bare] err == nil ==> str(a.firstBareMsg) == "n=" + precis(scramesc(a.username)) + ",r=" + str(a.nonce)
+//@   ensures[C14:gs2-no-binding] err == nil && !a.isPlus ==> str(msg) == "n,," + str(a.firstBareMsg)
+//@   ensures[C14:gs2-tls-unique] err == nil && a.isPlus && a.tlsConnState.TLSUnique != nil && a.tlsConnState.Version < 772 ==> str(msg) == "p=" + "tls-unique" + ",," + str(a.firstBareMsg)
+//@   ensures[C14:gs2-tls-exporter] err == nil && a.isPlus && !(a.tlsConnState.TLSUnique != nil && a.tlsConnState.Version < 772) ==> str(msg) == "p=" + "tls-exporter" + ",," + str(a.firstBareMsg)
+//@ func smtp.scramAuth.Next (fromServer, more) (resp, err)
+//@   ensures[C14:fresh-nonce-every-attempt] more && len(fromServer) == 0 && err == nil ==> world.randreads == old(world.randreads) + 1
+//@ func smtp.cramMD5Auth.Next (fromServer, more) (resp, err)
+//@   requires[C14:wf] a != nil
+//@   ensures[C14:rfc2195] more ==> err == nil && str(resp) == a.username + " " + hexs(hmacval(a.secret, old(str(fromServer))))
+//@   ensures[C14:done] !more ==> resp == nil && err == nil
+//@ func smtp.scramAuth.handleServerFirstResponse (fromServer) (resp, err)
+//@   requires[C14:wf] a != nil
+//@   ensures[C14:auth-message] err == nil && !a.isPlus ==> str(a.authMessage) == str(a.firstBareMsg) + "," + str(fromServer) + "," + ("c=biws,r=" + str(a.nonce))
+//@   ensures[C14:auth-message-plus] err == nil && a.isPlus ==> str(a.authMessage) == str(a.firstBareMsg) + "," + str(fromServer) + "," + ("c=" + str(a.bindData) + ",r=" + str(a.nonce))
+//@ func smtp.scramAuth.computeClientProof
+//@   requires[C14:wf] a != nil && a.h != nil
+//@   modifies[C14:frame] any.hdata, any.hkey, any.halg
+//@   loop 1 invariant[C14:frame] kept("A.byte") && freshslice(clientProof) && 0 <= i && len(clientProof) == len(clientSignature)
